@@ -371,6 +371,8 @@ async fn batch_candidates(
 
     #[cfg(corro_verif)]
     let mut verif_gen = verif_hooks::FLUSH_GEN.load(std::sync::atomic::Ordering::SeqCst);
+    #[cfg(corro_verif)]
+    let mut verif_armed = false;
 
     let mut process = false;
     loop {
@@ -419,10 +421,19 @@ async fn batch_candidates(
                         .as_mut()
                         .reset(Instant::now() + verif_hooks::MANUAL_TICK);
                     let flush_gen = verif_hooks::FLUSH_GEN.load(std::sync::atomic::Ordering::SeqCst);
-                    if flush_gen == verif_gen {
+                    if flush_gen != verif_gen {
+                        // a cut was requested: go round once more first, so that candidates sent
+                        // before the request (the channel is polled before this branch) are taken
+                        // in before the batch is handled
+                        verif_gen = flush_gen;
+                        verif_armed = true;
+                        process_changes_deadline.as_mut().reset(Instant::now());
                         continue;
                     }
-                    verif_gen = flush_gen;
+                    if !verif_armed {
+                        continue;
+                    }
+                    verif_armed = false;
                     if let Err(e) =
                         block_in_place(|| handle_candidates(evt_tx.clone(), std::mem::take(&mut buf)))
                     {
